@@ -207,6 +207,14 @@ def one_case(ctx, ge, alg, regs, cfg, name, op):
     for j, kind in enumerate(kinds):
         if op in REG and kind in ('sympy', 'mixed') and op != 'reg_symbolic':
             continue    # numerically registered functions are documented for numeric input; symbolic operands are another use
+        if op in REG and rng.random() < 0.35:
+            # another function is registered in between under a name that is already in use on this algebra (a notebook cell run again):
+            # the functions registered earlier keep what they have generated
+            def helper(a):
+                return a + a
+            st_h, _ = ctx.guarded(30, lambda: (alg.register(helper), alg.register(helper)))
+            if st_h == 'ok':
+                ctx.count('interleaved_reregistrations_of_a_used_name')
         if rng.random() < 0.4:
             # unrelated calls in between (may generate - not observed)
             o2 = rng.choice(ops.ELEMENTARY_BIN)
